@@ -594,3 +594,82 @@ pub fn instr_drive(args: &[String]) {
     }
     w.finish();
 }
+
+
+// ------------------------------------------------------------------ closures that outlive the run that created them (C06)
+thread_local! {
+    static RUN_NO: std::cell::Cell<i64> = std::cell::Cell::new(0);
+}
+
+/// persist-drive --out FILE : one VM, one program run three times.  In its first run the program stores a closure over locals
+/// of `main` in a global; every run gives those locals other values and calls the stored closure.  The closure keeps the
+/// values its variables had when the first run ended.  Events {e:"Persist", what, want, got, caller_want, caller_got}.
+pub fn persist_drive(args: &[String]) {
+    let out = arg_val(args, "--out").expect("--out");
+    let mut w = TraceWriter::open(out, false, 30_000);
+    let f = |name: &str, params: &[&str], body: Vec<C>| F { name: name.into(), params: params.iter().map(|x| x.to_string()).collect(), body };
+    for variant in 0..4usize {
+        w.line(json!({"e": "Reset", "case": variant}));
+        let first = || card("Equals", vec![native("run_no", vec![]), int(1)]);
+        let rd = || closure(&[], vec![card("Return", vec![card("Add", vec![read("x"), read("y")])])]);
+        // x = 1000 * run number, y = 20 (+1 after the closure was made in variant 1)
+        let mut body = vec![setv("x", card("Mul", vec![native("run_no", vec![]), int(1000)])), setv("y", int(20))];
+        match variant {
+            0 => body.push(card("IfTrue", vec![first(), setg("rd", rd())])),
+            1 => {
+                body.insert(0, setv("pad", int(7)));
+                body.push(card("IfTrue", vec![first(), setg("rd", rd())]));
+                body.push(setv("y", int(21)));
+            }
+            2 => body.push(card("IfTrue", vec![first(), block(vec![card("Comment", vec![]), setg("rd", rd())])])),
+            _ => {
+                body.push(card("IfTrue", vec![first(), setg("rd", rd())]));
+                body.push(setg("other", call("mk", vec![read("y")])));
+            }
+        }
+        body.push(setg("r", dyncall(read("rd"), vec![])));
+        body.push(setg("mine", card("Add", vec![read("x"), read("y")])));
+        let p = P { fns: vec![f("main", &[], body),
+                              f("mk", &["a"], vec![setv("l", int(100)), card("Return", vec![closure(&[], vec![card("Return", vec![card("Add", vec![read("a"), read("l")])])])])])],
+                    natives: vec![], imports: vec![] };
+        let c = match cao_lang::compiler::compile(p.to_module(), None) {
+            Ok(c) => c,
+            Err(_) => {
+                w.line(json!({"e": "Panic", "msg": "probe program does not compile"}));
+                continue;
+            }
+        };
+        w.begin(variant, &json!({"e": "Persist", "variant": variant}));
+        let r = guarded(|| {
+            let mut vm = make_vm(&p, &RunCfg::default());
+            vm.register_native_function("run_no", |_vm: &mut Vm<Host>| Ok(Value::Integer(RUN_NO.with(|c| c.get())))).unwrap();
+            let mut got = vec![];
+            for run in 1..=3i64 {
+                RUN_NO.with(|c| c.set(run));
+                let ok = vm.run(&c).is_ok();
+                let unset = || json!({"t": "unset"});
+                let r = vm.read_var_by_name("r", &c.variables).map(|v| deep(v, 0)).unwrap_or_else(unset);
+                let mine = vm.read_var_by_name("mine", &c.variables).map(|v| deep(v, 0)).unwrap_or_else(unset);
+                got.push((run, ok, r, mine));
+            }
+            got
+        });
+        match r {
+            Ok(got) => {
+                for (run, ok, r, mine) in got {
+                    // the closure's variables: x = 1000 and y = 20 (21 in variant 1, written after the capture) from the first run
+                    let y = if variant == 1 { 21 } else { 20 };
+                    let want = 1000 + y;
+                    let _ = run;
+                    let mine_want = run * 1000 + y;
+                    w.line(json!({"e": "Persist", "what": format!("variant {variant}, run {run}: closure over locals of main made by the first run"),
+                                  "made": true, "ok": ok, "want": {"e":0,"i":want,"s":"","t":"int"}, "got": r,
+                                  "caller_want": {"e":0,"i":mine_want,"s":"","t":"int"}, "caller_got": mine}));
+                }
+                w.end(json!({"e": "Note", "case": variant}));
+            }
+            Err(msg) => w.end(json!({"e": "Panic", "msg": msg})),
+        }
+    }
+    w.finish();
+}
